@@ -218,7 +218,10 @@ func (p *Probe) Exec(c *Cmd) *Result {
 			if r == nil {
 				break
 			}
-			resps = append(resps, r)
+			// project at once: a subscription's responses share one buffer (Data is only
+			// valid until the next call of the response function)
+			httpResps = append(httpResps, projectResp(r, res))
+			run.Log(Event{E: "Resp", T: fmt.Sprint(len(httpResps) - 1)})
 			if c.Mode == "one" {
 				break
 			}
